@@ -249,6 +249,10 @@ def gen_gate_group(rng, idx):
     parts = []
     for pi in range(rng.choice([1, 1, 2, 3])):
         kf = k if pi == 0 else rng.randrange(1, intervals + 1)
+        if pi > 0 and rng.random() < 0.25:
+            # a partition known only through an owner update: every slot unfilled (finding F4: an empty window is not complete)
+            parts.append((rng.choice([1, 2]), 1, rng.choice([0, 0, allowed + 1]), [rng.randrange(0, 1000)], [None] * intervals))
+            continue
         w = base_window(rng, kf)
         flavour = rng.choice(["stall", "stop", "warn", "any"])
         if flavour == "stall":
